@@ -861,9 +861,12 @@ def exec_icwalk(trace, prop) -> Result:
     backing = InstructionMemory()
     generation = [0]
 
+    current = []  # the program as the caller wrote it (independent of what the memories report)
+
     def program(n):
         generation[0] += 1
-        return [ADDI(rd=(i % 31) + 1, rs1=0, imm=(generation[0] * 131 + i) % 2048) for i in range(n)]
+        current[:] = [ADDI(rd=(i % 31) + 1, rs1=0, imm=(generation[0] * 131 + i) % 2048) for i in range(n)]
+        return list(current)
 
     ops = list(trace["ops"])
     try:
@@ -887,6 +890,7 @@ def exec_icwalk(trace, prop) -> Result:
                 hs.add(i, "LOAD", op[1])
             elif kind == "RESET":
                 sut.reset()
+                current[:] = []
                 ref = RefCache("ro", cfg["ib"], cfg["bb"], cfg["ways"], cfg["strat"])
                 st = sut.get_cache_stats()
                 rep = sut.cache_repr()
@@ -908,16 +912,21 @@ def exec_icwalk(trace, prop) -> Result:
                     break
             else:
                 a = op[1]
+                written = a % 4 == 0 and 0 <= a // 4 < len(current)
                 if not sut.instruction_at_address(a):
-                    if backing.instruction_at_address(a):
-                        res.violate("C11", "instruction-invisible-through-the-cache", at=i, address=a)
+                    if written:
+                        res.violate("C11", "instruction-invisible-through-the-cache", at=i, address=a,
+                                    note="an instruction that was written is not there when looked up through the cache system")
                         break
                     continue
+                if not written:
+                    res.violate("C11", "instruction-present-that-was-never-written", at=i, address=a)
+                    break
                 c0 = pm.cycles
                 got = sut.read_instruction(a)
                 fetches += 1
                 hit, _v, _k = ref.access(a, False)
-                want = backing.instructions.get(a)
+                want = current[a // 4]
                 hs.add(i, a, repr(got), sut.hits, sut.accesses)
                 if got is not want:
                     res.violate("C11", "fetched-wrong-instruction", at=i, address=a, expected=repr(want), got=repr(got))
